@@ -7,30 +7,37 @@
                   classification predicts the tokens/vars of every shared finisher, of every
                   isolated replay, and the final aliasing structure.
    spec_holds   : the property, on what gorm returned: shared SQL/Vars/error = isolated ones. *)
-From Verif Require Export Base C06_Model.
+From Verif Require Export Base C06_Model C06_Ext.
 Open Scope Z_scope.
 
 Record fobs := mk_fobs {
   f_toks : list Z; f_vars : list Z;            (* shared run: tokens of the SQL, bound values *)
   f_atoks : list Z; f_avars : list Z;          (* isolated replay *)
   f_sql : string; f_asql : string;             (* the two SQL texts *)
-  f_err : string; f_aerr : string
+  f_err : string; f_aerr : string;
+  (* the non-slice state the finisher ran under (context tag, SkipHooks, Preloads, Settings), read from
+     the statement it left behind: shared run / isolated replay *)
+  f_x : xobs; f_ax : xobs
 }.
 
 (* final statement of a handle: per field None (nil) or (array id, len, cap); then scalars *)
 Record hobs := mk_hobs {
   h_sl : list (option (Z * Z * Z));
-  h_distinct : bool; h_unscoped : bool; h_table : Z
+  h_distinct : bool; h_unscoped : bool; h_table : Z;
+  h_ctx : Z; h_skip : bool;
+  h_pre : option (Z * list (Z * Z));     (* Preloads: nil, or (canonical id of the map object, content) *)
+  h_set : list (Z * Z)
 }.
 
 Record case := mk_case {
   c_inmodel : bool;        (* false: a regression input using an operation outside the model (spec only) *)
-  c_hist : list step;
+  c_hist : list ustep;     (* ONE history, run by both models (to_step / to_xstep) *)
   c_fins : list fobs;
   c_final : list hobs
 }.
 
-Definition run (hist : list step) : state := run_hist go_grow tree_md hist.
+Definition run (hist : list ustep) : state := run_hist go_grow tree_md (map to_step hist).
+Definition xrun (hist : list ustep) : xstate := run_xhist false tree_guard (map to_xstep hist).
 
 (* canonical numbering of backing arrays by first appearance (handles in order, fields in order);
    zero-capacity slices all share Go's zerobase pointer: id -1 *)
@@ -57,22 +64,47 @@ Fixpoint canon_fields (m : list (nat * Z)) (s : mstmt) (fs : list field) : list 
   | f :: r => let '(m1, x) := canon_slice m (sl s f) in
               let '(m2, xs) := canon_fields m1 s r in (m2, x :: xs)
   end.
-Fixpoint canon_handles (m : list (nat * Z)) (sts : list mstmt) (hds : list (nat * nat)) : list hobs :=
+(* map objects are numbered by first appearance as well (their own numbering) *)
+Definition canon_map (mm : list (nat * Z)) (mh : list (list (Z * Z))) (r : option nat)
+  : list (nat * Z) * option (Z * list (Z * Z)) :=
+  match r with
+  | None => (mm, None)
+  | Some l => match lookup l mm with
+              | Some id => (mm, Some (id, nth l mh []))
+              | None => let id := Z.of_nat (length mm) in ((l, id) :: mm, Some (id, nth l mh []))
+              end
+  end.
+Fixpoint canon_handles (m mm : list (nat * Z)) (sts : list mstmt) (mh : list (list (Z * Z))) (xsts : list xstmt)
+    (hds : list (nat * nat)) : list hobs :=
   match hds with
   | [] => []
   | (i, _) :: r =>
       let s := get_stmt sts i in
+      let x := xget xsts i in
       let '(m1, xs) := canon_fields m s all_fields in
-      mk_hobs xs (k_distinct (sc s)) (k_unscoped (sc s)) (k_table (sc s)) :: canon_handles m1 sts r
+      let '(mm1, pre) := canon_map mm mh (x_pre x) in
+      mk_hobs xs (k_distinct (sc s)) (k_unscoped (sc s)) (k_table (sc s)) (x_ctx x) (x_skip x) pre (x_set x)
+        :: canon_handles m1 mm1 sts mh xsts r
   end.
-Definition model_final (st : state) : list hobs := canon_handles [] (st_stmts st) (st_handles st).
+(* both models keep the same handle table (statement numbers and clone modes): checked, then used *)
+Definition model_final (st : state) (xst : xstate) : list hobs :=
+  canon_handles [] [] (st_stmts st) (xs_maps xst) (xs_stmts xst) (st_handles st).
+Definition same_handles (st : state) (xst : xstate) : bool :=
+  list_eqb (fun a b : nat * nat => Nat.eqb (fst a) (fst b) && Nat.eqb (snd a) (snd b)) (st_handles st) (xs_handles xst).
 
 Definition triple_eqb (a b : Z * Z * Z) : bool :=
   let '(a1, a2, a3) := a in let '(b1, b2, b3) := b in (a1 =? b1) && (a2 =? b2) && (a3 =? b3).
+Definition pair_eqb (u v : Z * Z) : bool := (fst u =? fst v) && (snd u =? snd v).
+Definition amap_eqb (a b : list (Z * Z)) : bool := list_eqb pair_eqb a b.
+Definition xobs_eqb (a b : xobs) : bool :=
+  (o_ctx a =? o_ctx b) && Bool.eqb (o_skip a) (o_skip b) && amap_eqb (o_pre a) (o_pre b) && amap_eqb (o_set a) (o_set b).
 Definition hobs_eqb (a b : hobs) : bool :=
   list_eqb (option_eqb triple_eqb) (h_sl a) (h_sl b)
   && Bool.eqb (h_distinct a) (h_distinct b) && Bool.eqb (h_unscoped a) (h_unscoped b)
-  && (h_table a =? h_table b).
+  && (h_table a =? h_table b)
+  && (h_ctx a =? h_ctx b) && Bool.eqb (h_skip a) (h_skip b)
+  && option_eqb (fun u v : Z * list (Z * Z) => (fst u =? fst v) && amap_eqb (snd u) (snd v)) (h_pre a) (h_pre b)
+  && amap_eqb (h_set a) (h_set b).
 
 Definition out_eqb (m : list pop * (list Z * list Z)) (o : fobs) : bool :=
   let '(chain, (toks, vars)) := m in
@@ -86,16 +118,24 @@ Fixpoint all2b {A B} (f : A -> B -> bool) (a : list A) (b : list B) : bool :=
   | _, _ => false
   end.
 
+(* the non-slice model predicts what the finisher ran under, in the shared run AND alone *)
+Definition xout_eqb (m : list xpop * xobs) (o : fobs) : bool :=
+  xobs_eqb (snd m) (f_x o) && xobs_eqb (xreplay (fst m)) (f_ax o).
+
 Definition model_agrees (c : case) : bool :=
   negb (c_inmodel c) ||
   let st := run (c_hist c) in
+  let xst := xrun (c_hist c) in
   all2b out_eqb (st_outs st) (c_fins c)
-  && list_eqb hobs_eqb (model_final st) (c_final c).
+  && all2b xout_eqb (xs_outs xst) (c_fins c)
+  && same_handles st xst
+  && list_eqb hobs_eqb (model_final st xst) (c_final c).
 
 (* the property: every finisher of the shared history renders exactly what the same chain renders
    alone (SQL text, bound values, error) *)
 Definition spec_holds (c : case) : bool :=
   forallb (fun o => String.eqb (f_sql o) (f_asql o) && zlist_eqb (f_vars o) (f_avars o)
-                    && String.eqb (f_err o) (f_aerr o)) (c_fins c).
+                    && String.eqb (f_err o) (f_aerr o)
+                    && xobs_eqb (f_x o) (f_ax o)) (c_fins c).
 
 Definition check_case (c : case) : N := code_of (model_agrees c) (spec_holds c).
